@@ -22,7 +22,7 @@ Definition prop_sync (c : sync_case) : bool :=
   let '(f1, reqn, sched, tr, ids, sigs, re, tr2, ids2) := c in
   let head := Z.of_nat (List.length ids) in
   let g := gapfree_fn f1 sched in
-  eqb_list Z.eqb ids (seqs_from 1 (List.length ids)) &&          (* a prefix of the publisher's chain *)
+  eqb_list Z.eqb ids (seqs_from 1 (List.length ids)) &&          (* every held block IS the publisher's block of that seq: header hash AND body hash (id 0 otherwise) *)
   (last_head 0 tr =? head) &&
   forallb (delivered_valid_b f1 sched) ids &&                     (* only blocks it was given *)
   (head <=? g) &&                                                 (* never beyond the longest gap-free prefix *)
